@@ -76,18 +76,18 @@ func (s *counterSeq) NextSeq() (int64, error) {
 type Env struct {
 	NS     *models.Namespace
 	Router *router.Router
-	// one parser per Env (an Env is used by one goroutine at a time): a fresh
-	// parser.New() re-grows its symbol stack on every statement, which dominates the
-	// run time; every parse still returns a fresh AST.
-	ps *parser.Parser
 }
 
-// Parse parses one statement with the Env's parser.
+// parsers are pooled (sync.Pool keeps them per P, i.e. per worker): a fresh parser.New()
+// re-grows its symbol stack on every statement, which dominated the run time, and the
+// history families build thousands of Envs. Every parse still returns a fresh AST.
+var parserPool = sync.Pool{New: func() interface{} { return parser.New() }}
+
+// Parse parses one statement the way the session does.
 func (e *Env) Parse(sql string) (ast.StmtNode, error) {
-	if e.ps == nil {
-		e.ps = parser.New()
-	}
-	return e.ps.ParseOneStmt(sql, "", "")
+	ps := parserPool.Get().(*parser.Parser)
+	defer parserPool.Put(ps)
+	return ps.ParseOneStmt(sql, "", "")
 }
 
 // NewEnv verifies the namespace the way the proxy does and builds its router. The
